@@ -318,6 +318,19 @@ func singleStore(a *ssa.Alloc) ssa.Value {
 				return nil
 			}
 		case *ssa.UnOp, *ssa.DebugRef:
+		case *ssa.FieldAddr:
+			// reading fields of a struct cell is fine; writing through them is not
+			for _, u2 := range *x.Referrers() {
+				switch y := u2.(type) {
+				case *ssa.UnOp, *ssa.DebugRef:
+				case *ssa.Store:
+					if y.Addr == ssa.Value(x) {
+						return nil
+					}
+				default:
+					return nil
+				}
+			}
 		case *ssa.MakeClosure:
 			fn := x.Fn.(*ssa.Function)
 			for i, b := range x.Bindings {
